@@ -121,6 +121,15 @@ def add_obligations(res, tree, rule: str, scope: str = "all") -> int:
                         f"argument is the extent of axis {have} [{ax.reason(pv)[:60]}]; the parameter name means axis {want}")
                 n += 1
                 per_env[ea.cls.name] = per_env.get(ea.cls.name, 0) + 1
+        if scope == "all":
+            for t, w0, w1 in ax.contradictions():
+                key = ("contra", txt(t, 3, 60))
+                if key in seen_global:
+                    continue
+                seen_global.add(key)
+                res.add(rule, ea.cls.loc(), env, f"extent {txt(t, 3, 60)} used consistently", False,
+                        f"it is the extent of axis 0 by [{w0[:80]}] and of axis 1 by [{w1[:80]}]")
+                n += 1
         if scope in ("all", "spec"):
             k = spec_bound_obligations(res, ea, ax, rule if scope == "spec" else rule)
             n += k
